@@ -281,6 +281,8 @@ Continue(i) ==
 (* C19, first sentence: with max_response_bytes set, a unary or exchange response whose body     *)
 (* would exceed the cap is replaced by an error.  The driver measures the uncapped response      *)
 (* and sets the cap relative to it: "over" = the body exceeds the cap, "fits" = it does not.      *)
+\* the probes say nothing about how many uploads happen before a refusal
+NoUploads(r) == [r EXCEPT !.exp = [k \in (DOMAIN r.exp) \ {"uploads"} |-> r.exp[k]]]
 UnaryCap(rel, ch, i) ==
     /\ Budget /\ CapProbe /\ ph = "idle" /\ ncalls < MaxCalls
     /\ (ch = "ext") => ExtK # 0
@@ -288,8 +290,8 @@ UnaryCap(rel, ch, i) ==
     /\ UNCHANGED <<ph, cur, pos, sent, view>>
     /\ LET a == [m |-> "u_val", rel |-> rel, chan |-> ch, inst |-> i] IN
        IF rel = "over"
-       THEN RecordC(Resp("UnaryCap", a, 200, << Exc("RuntimeError", "") >>, FALSE, FALSE, <<"unary">>, TRUE, TRUE))
-       ELSE RecordC(Resp("UnaryCap", a, 200, << Data("x") >>, FALSE, FALSE, <<"unary">>, TRUE, FALSE))
+       THEN RecordC(NoUploads(Resp("UnaryCap", a, 200, << Exc("RuntimeError", "") >>, FALSE, FALSE, <<"unary">>, TRUE, TRUE)))
+       ELSE RecordC(NoUploads(Resp("UnaryCap", a, 200, << Data("x") >>, FALSE, FALSE, <<"unary">>, TRUE, FALSE)))
 ExchCap(rel, ch, i) ==
     /\ Budget /\ CapProbe /\ ph = "idle" /\ ncalls < MaxCalls
     /\ (ch = "ext") => ExtK # 0
@@ -297,8 +299,8 @@ ExchCap(rel, ch, i) ==
     /\ UNCHANGED <<ph, cur, pos, sent, view>>
     /\ LET a == [m |-> "exch", rel |-> rel, chan |-> ch, inst |-> i] IN
        IF rel = "over"
-       THEN RecordC(Resp("ExchCap", a, 200, << Exc("RuntimeError", "") >>, FALSE, FALSE, <<"exchange">>, TRUE, TRUE))
-       ELSE RecordC(Resp("ExchCap", a, 200, << Data(2) >>, TRUE, FALSE, <<"exchange">>, TRUE, FALSE))
+       THEN RecordC(NoUploads(Resp("ExchCap", a, 200, << Exc("RuntimeError", "") >>, FALSE, FALSE, <<"exchange">>, TRUE, TRUE)))
+       ELSE RecordC(NoUploads(Resp("ExchCap", a, 200, << Data(2) >>, TRUE, FALSE, <<"exchange">>, TRUE, FALSE)))
 
 \* the client stops an exchange stream after its last input (it simply stops sending)
 Init ==
